@@ -49,9 +49,6 @@ func init() {
 				Old: "\tresp.ResponseWriteDuration = time.Since(responseWriteStart)\n\t// Extract data from the leader's context", New: "\tresp.ResponseWriteDuration = time.Since(responseWriteStart)\n\tif err != nil {\n\t\tr.inboundRequestSingleFlight.FinishErr(inflight, err)\n\t\tr.responseBufferPool.Release(responseArena)\n\t\treturn resp, err\n\t}\n\t// Extract data from the leader's context"},
 			{Name: "failed subgraph loads stay in the in-flight table (seeded change C07-13)", File: "v2/pkg/engine/resolve/subgraph_request_singleflight.go", Rule: "C11-R2", Key: "SubgraphRequestSingleFlight.Finish/removed-before-close",
 				Old: "\tshard.items.Delete(item.SFKey)\n\tclose(item.loaded)\n", New: "\tif len(item.response) == 0 {\n\t\tclose(item.loaded)\n\t\treturn\n\t}\n\tshard.items.Delete(item.SFKey)\n\tclose(item.loaded)\n"},
-			{Name: "early return before FinishErr on the authorization error edge", File: resolveGo, Rule: "C11-R1", Key: "ArenaResolveGraphQLResponse",
-				Old: "\t\tif err = authorization.authorizePreFetch(response); err != nil {\n\t\t\tr.inboundRequestSingleFlight.FinishErr(inflight, err)\n",
-				New: "\t\tif err = authorization.authorizePreFetch(response); err != nil {\n"},
 			{Name: "FinishOk also called on the write-error path (double finish)", File: resolveGo, Rule: "C11-R1", Key: "ArenaResolveGraphQLResponse",
 				Old: "\tr.inboundRequestSingleFlight.FinishOk(inflight, buf.Bytes())\n", New: "\tif err != nil {\n\t\tr.inboundRequestSingleFlight.FinishErr(inflight, err)\n\t}\n\tr.inboundRequestSingleFlight.FinishOk(inflight, buf.Bytes())\n"},
 			{Name: "subgraph leader finishes explicitly only on success (defer removed)", File: loaderGo, Rule: "C11-R1", Key: "loadByContext",
@@ -98,6 +95,48 @@ func runC11(r *fw.Run) {
 		r.Error("C11-R1: Resolver.ArenaResolveGraphQLResponse not found")
 	} else {
 		var errObj, reqObj types.Object
+		// Functions that can only fail for a request whose context carries an authorizer: every return of a non-nil error is
+		// dominated by a non-nil test of a Context field of an authorizer interface type. Such a request is never
+		// de-duplicated (C14-R6: no record is shared where an authorizer field is non-nil), so on the error edge of such a call
+		// the record is nil and finishing it is a no-op: the exit may finish 0 or 1 times.
+		authDependent := map[*types.Func]bool{}
+		for _, cand := range p.Funcs("resolve") {
+			sig := cand.Obj.Type().(*types.Signature)
+			if sig.Results().Len() != 1 || sig.Results().At(0).Type().String() != "error" {
+				continue
+			}
+			cinfo := cand.Info()
+			nErr, allGuarded := 0, true
+			cin := fw.NewInterp(cand)
+			cin.H = fw.Hooks{
+				Lit: func(l *ast.FuncLit, ctx fw.LitCtx, st *fw.State) fw.LitMode { return fw.LitSkip },
+				Cond: func(e ast.Expr, branch bool, st *fw.State) {
+					a := fw.Atom(cinfo, e, branch)
+					if a.Kind != "NonNil" {
+						return
+					}
+					if fv, _ := fw.Field(cinfo, a.X); fv != nil && strings.HasSuffix(fw.RecvName(fv.Type()), "Authorizer") && fw.IsFieldSel(cinfo, a.X, "resolve", "Context", fv.Name()) {
+						st.Set("has-authorizer")
+					}
+				},
+				Exit: func(ret *ast.ReturnStmt, lit *ast.FuncLit, st *fw.State) {
+					if lit != nil || ret == nil || !cin.Final() || len(ret.Results) != 1 {
+						return
+					}
+					if id, isID := ast.Unparen(ret.Results[0]).(*ast.Ident); isID && cinfo.Uses[id] == types.Universe.Lookup("nil") {
+						return
+					}
+					nErr++
+					if !st.Must("has-authorizer") {
+						allGuarded = false
+					}
+				},
+			}
+			cin.Run(nil)
+			if nErr > 0 && allGuarded {
+				authDependent[cand.Obj] = true
+			}
+		}
 		in := fw.NewInterp(fi)
 		nExit := 0
 		in.H = fw.Hooks{
@@ -121,6 +160,12 @@ func runC11(r *fw.Run) {
 					for _, l := range x.Lhs {
 						if errObj != nil && fw.RootObj(info, l) == errObj {
 							st.Kill("err-fresh")
+							st.Kill("err-auth")
+							if len(x.Rhs) == 1 {
+								if c, ok := ast.Unparen(x.Rhs[0]).(*ast.CallExpr); ok && authDependent[fw.Callee(info, c)] {
+									st.Set("err-auth")
+								}
+							}
 						}
 					}
 				case *ast.CallExpr:
@@ -135,6 +180,9 @@ func runC11(r *fw.Run) {
 				if x, eq, ok := fw.NilCheck(info, e); ok {
 					if errObj != nil && fw.RootObj(info, x) == errObj && st.Must("err-fresh") && eq != branch {
 						st.Set("exempt") // GetOrCreate failed: there is no record to finish
+					}
+					if errObj != nil && fw.RootObj(info, x) == errObj && st.Must("err-auth") && eq != branch {
+						st.Set("optional") // only a request with an authorizer fails here, and such a request has no record
 					}
 					if fw.IsFieldSel(info, x, "resolve", "InflightRequest", "Data") && fw.RootObj(info, x) == reqObj && eq != branch {
 						st.Set("exempt") // follower edge: Data != nil
@@ -151,7 +199,7 @@ func runC11(r *fw.Run) {
 					pos = ret.Pos()
 				}
 				c := st.Get("finish")
-				ok := st.Must("exempt") && c.Max == 0 || (!st.May("exempt") && c == fw.Cnt{Min: 1, Max: 1})
+				ok := st.Must("exempt") && c.Max == 0 || (!st.May("exempt") && c == fw.Cnt{Min: 1, Max: 1}) || (st.Must("optional") && !st.May("exempt") && c.Max <= 1)
 				why := "the leader reaches this exit having finished the shared record " + cntStr(c) + " times: 0 ⇒ followers block until their own context ends (wedge); 2 ⇒ close of a closed channel (process panic)"
 				r.Check(ok, "C11-R1", fi.Name()+"/exit-finish-once", p.Pos(pos), "exit of ArenaResolveGraphQLResponse: FinishOk/FinishErr exactly once", why)
 			},
